@@ -285,7 +285,7 @@ def s_unsafe(F, R):
                     "from_raw_parts over %s of %s to %s: only the shared view of the whole, completely filled buffer is audited" % (sorted(bases), src_ty, to), where=loc(x))
         else:
             R.fail("S-unsafe", "new/" + key, "unaudited unsafe block in %s: %s" % (f["root"], pp(x)[:120]), where=loc(x))
-    R.floor("S-unsafe", "user unsafe blocks", len(blocks), 3)
+    R.floor("S-unsafe", "user unsafe blocks", len(blocks), 0)
     R.analysed["unsafe_blocks"] = seen
     # no raw-pointer deref, static mut, inline asm in the crate
     bad = []
